@@ -25,9 +25,18 @@ CHECKS = {'C15': {'level': 'fault_enumeration',
                  'pattern) in corrupt*); non-trivial = '
                  'prefixes that end strictly inside a nested object (parameter in a vector, feature, tensor, weak '
                  'learner inside a model; measured by locating the separately serialized sub-objects in the stream), '
-                 'corruptions of dims/hash/payload bytes (not of the constant version/rank/sizeof fields), round '
+                 'judged corruptions of dims/hash/payload bytes (not of the constant version/rank/sizeof fields, not '
+                 'the reshaped-empty-tensor cases that are not judged), round '
                  'trips of non-empty / fitted / composite objects',
-         'assumptions': ['a reader "reports failure" when it throws any exception or leaves the stream with '
+         'assumptions': ['not judged (coordinator decision): a single-byte change of the dims field of a tensor WITHOUT '
+                         'elements that the reader turns into another well-formed empty tensor (all read-back dims >= '
+                         '0, element count 0), e.g. (0,0) -> (1,0): the statement promises failure for altered payload '
+                         'bytes and strict prefixes, the dims are header and there is no payload to protect; these '
+                         'cases are counted as outcome "accepted:empty-tensor-reshaped(not judged)". Every other '
+                         'accepted corruption is a violation: any payload byte, any header byte of a non-empty tensor, '
+                         'any read-back negative dimension (fixed in /repo by ae51d9d), any crash or out-of-bounds '
+                         'access',
+                         'a reader "reports failure" when it throws any exception or leaves the stream with '
                          'failbit/badbit set; std::bad_alloc/std::length_error count as rejection',
                          'RLIMIT_AS cannot be combined with ASan (shadow memory): the asan stages cap the request '
                          'size of the ASan allocator instead (max_allocation_size_mb=8 compiled into the harness, '
